@@ -68,7 +68,8 @@ impl Neighbor {
         let mut done = 0;
         while done < n {
             let Some(rx) = self.s.peer_event_rx.as_mut() else { break };
-            let Some(ev) = rx.next().now_or_never() else { break };
+            // (unconstrained: tokio's cooperative budget would otherwise report an empty queue after 128 receives in one poll)
+            let Some(ev) = tokio::task::unconstrained(rx.next()).now_or_never() else { break };
             done += 1;
             match ev {
                 Some(ToPeerEvent::NlriChange(update)) => {
@@ -169,16 +170,19 @@ pub(crate) struct SessionGr {
 /// The daemon's per-peer context with its real GR state machine and timer slots, driven
 /// through the daemon's own disconnect handling. The tail of `PeerSession::run` (what to
 /// drop, what to mark stale, which negotiated parameters survive the disconnect reason)
-/// and the helper side of `process_effects` are repeated here statement by statement;
+/// is repeated here statement by statement; `PeerSession::process_effects`,
 /// `apply_disconnect`, `gr_restart_timer_expired`, `llgr_timer_expired` and
 /// `spawn_llgr_timers` are the daemon's.
 pub(crate) struct GrRig {
     context: Arc<std::sync::Mutex<PeerContext>>,
     pub(crate) addr: IpAddr,
+    /// a session object of the peer (cfg(test) constructor, no socket): its process_effects runs
+    session: std::cell::RefCell<PeerSession>,
+    global: GlobalHandle,
 }
 
 impl GrRig {
-    pub(crate) fn new(addr: IpAddr) -> Self {
+    pub(crate) fn new(addr: IpAddr, tables: &TableHandle) -> Self {
         let fsm = crate::fsm::PeerFsm::new(1, 65000, Vec::new(), 90, 0, FnvHashMap::default());
         let conn_arbiter = Arc::new(std::sync::Mutex::new(ConnArbiter::new(fsm)));
         let context = Arc::new(std::sync::Mutex::new(PeerContext {
@@ -191,7 +195,11 @@ impl GrRig {
             rtc_state: crate::rtc::RtcState::new(),
             rtc_eor_timer: None,
         }));
-        GrRig { context, addr }
+        let session = PeerSession::new_for_test(addr, context.clone(), tables.clone());
+        let (tx, _rx) = mpsc::unbounded_channel();
+        let (bfd_tx, _bfd_rx) = mpsc::unbounded_channel();
+        let global: GlobalHandle = Arc::new(tokio::sync::RwLock::new(Global::new(tx, bfd_tx)));
+        GrRig { context, addr, session: std::cell::RefCell::new(session), global }
     }
 
     /// end of a connection: `established` = on_established() had run (sources exist)
@@ -211,41 +219,17 @@ impl GrRig {
         let _ = apply_disconnect(&self.context, self.addr, tables, disconnect).await;
     }
 
-    /// helper side of GlobalEffect::GrSessionEstablished
-    pub(crate) fn session_established(&self, tables: &TableHandle, gr_families: Vec<Family>) {
-        {
-            let mut ctx = self.context.lock().unwrap();
-            ctx.cancel_gr_timer();
-        }
-        let (delete_families, delete_llgr_families) = {
-            let mut ctx = self.context.lock().unwrap();
-            let outputs = ctx.gr_state.process(crate::gr::GrInput::SessionEstablished { gr_families });
-            if outputs.iter().any(|o| matches!(o, crate::gr::GrOutput::StopLlgrTimers)) {
-                ctx.cancel_llgr_timers();
-            }
-            (collect_delete_families(&outputs), collect_delete_llgr_families(&outputs))
-        };
-        if !delete_families.is_empty() {
-            tables.drop_stale_families(self.addr, &delete_families);
-        }
-        if !delete_llgr_families.is_empty() {
-            tables.drop_llgr_stale_families(self.addr, &delete_llgr_families);
-        }
+    /// the daemon's GlobalEffect::GrSessionEstablished handling (the speaker is not restarting: helper side)
+    #[allow(clippy::await_holding_refcell_ref)]
+    pub(crate) async fn session_established(&self, gr_families: Vec<Family>) {
+        let negotiated_gr = if gr_families.is_empty() { None } else { Some(NegotiatedGr { families: gr_families, restart_time: Duration::from_secs(120), notification_enabled: false }) };
+        self.session.borrow_mut().process_effects(vec![GlobalEffect::GrSessionEstablished { negotiated_gr }], &self.global).await;
     }
 
-    /// helper side of GlobalEffect::GrEorReceived
-    pub(crate) fn eor(&self, tables: &TableHandle, family: Family) {
-        let (delete_families, delete_llgr_families) = {
-            let mut ctx = self.context.lock().unwrap();
-            let outputs = ctx.gr_state.process(crate::gr::GrInput::EorReceived(family));
-            (collect_delete_families(&outputs), collect_delete_llgr_families(&outputs))
-        };
-        if !delete_families.is_empty() {
-            tables.drop_stale_families(self.addr, &delete_families);
-        }
-        if !delete_llgr_families.is_empty() {
-            tables.drop_llgr_stale_families(self.addr, &delete_llgr_families);
-        }
+    /// the daemon's GlobalEffect::GrEorReceived handling
+    #[allow(clippy::await_holding_refcell_ref)]
+    pub(crate) async fn eor(&self, family: Family) {
+        self.session.borrow_mut().process_effects(vec![GlobalEffect::GrEorReceived { family }], &self.global).await;
     }
 
     /// (restart timer armed, families with an armed LLGR timer, GrState::is_peer_restarting)
@@ -287,6 +271,10 @@ pub(crate) struct NeighborCfg {
     pub(crate) holdtime: u64,
     pub(crate) families: Vec<(Family, u8)>,
     pub(crate) prefix_limit: Option<u32>,
+    /// graceful restart as configured for the neighbour: (restart time, N-bit, families)
+    pub(crate) gr: Option<(u16, bool, Vec<Family>)>,
+    /// long-lived graceful restart as configured: (family, stale time)
+    pub(crate) llgr: Option<Vec<(Family, u32)>>,
 }
 
 #[derive(Clone, Debug)]
@@ -361,8 +349,8 @@ impl AdmitRig {
             families: c.families.iter().copied().collect(),
             send_max: FnvHashMap::default(),
             prefix_limits: c.prefix_limit.map(|l| [(Family::IPV4, l)].into_iter().collect()).unwrap_or_default(),
-            graceful_restart: None,
-            llgr: None,
+            graceful_restart: c.gr.clone().map(|(restart_time, notification_enabled, families)| GrPeerConfig { restart_time, notification_enabled, families }),
+            llgr: c.llgr.clone().map(|families| LlgrPeerConfig { families }),
             bfd_config: None,
             neighbor_interface: None,
             bind_interface: None,
@@ -398,6 +386,48 @@ impl AdmitRig {
         }
     }
 
+    /// (restart timer armed, families with an armed LLGR timer, GrState::is_peer_restarting) of the peer
+    pub(crate) async fn gr_timers(&self, addr: IpAddr) -> (bool, Vec<Family>, bool) {
+        let g = self.global.read().await;
+        let Some(p) = g.peers.get(&addr) else { return (false, vec![], false) };
+        let ctx = p.context.lock().unwrap();
+        let gr = ctx.gr_restart_timer.as_ref().is_some_and(|t| !t.is_closed());
+        let llgr = ctx.llgr_family_timers.iter().filter(|(_, t)| !t.is_closed()).map(|(f, _)| *f).collect();
+        (gr, llgr, ctx.gr_state.is_peer_restarting())
+    }
+
+    /// the daemon's gRPC DisablePeer / EnablePeer handlers on this rig's Global
+    pub(crate) async fn disable_peer(&self, addr: IpAddr, enable_again: bool) -> Result<(), String> {
+        let svc = GrpcService::new(Arc::new(tokio::sync::Notify::new()), self.active_tx.clone(), self.global.clone(), self.tables.clone());
+        svc.disable_peer(tonic::Request::new(api::DisablePeerRequest { address: addr.to_string(), communication: String::new() })).await.map_err(|e| e.to_string())?;
+        if enable_again {
+            svc.enable_peer(tonic::Request::new(api::EnablePeerRequest { address: addr.to_string() })).await.map_err(|e| e.to_string())?;
+        }
+        Ok(())
+    }
+
+    /// before add_neighbor: the speaker's BGP identifier
+    pub(crate) async fn set_router_id(&self, id: Ipv4Addr) {
+        self.global.write().await.router_id = id;
+    }
+
+    /// FSM state of the (active, passive) connection slot of the peer, as u8 (crate::fsm::State)
+    pub(crate) async fn fsm_states(&self, addr: IpAddr) -> Option<(crate::fsm::State, crate::fsm::State)> {
+        let g = self.global.read().await;
+        let p = g.peers.get(&addr)?;
+        let ctx = p.context.lock().unwrap();
+        let arb = ctx.conn_arbiter.lock().unwrap();
+        Some((arb.state(crate::fsm::Role::Active), arb.state(crate::fsm::Role::Passive)))
+    }
+
+    /// wire frames the daemon has counted as received from `addr` (all types)
+    pub(crate) async fn rx_frames(&self, addr: IpAddr) -> u64 {
+        let g = self.global.read().await;
+        let Some(p) = g.peers.get(&addr) else { return 0 };
+        let c = &p.counter_rx;
+        [&c.open, &c.update, &c.notification, &c.keepalive, &c.refresh, &c.discarded].iter().map(|a| a.load(Ordering::Relaxed)).sum()
+    }
+
     pub(crate) async fn has_peer(&self, addr: IpAddr) -> bool {
         self.global.read().await.peers.contains_key(&addr)
     }
@@ -411,6 +441,29 @@ impl AdmitRig {
         let (client, server) = tokio::join!(sock.connect(dst), self.listener.accept());
         let client = client.map_err(|e| e.to_string())?;
         let (server, _) = server.map_err(|e| e.to_string())?;
+        self.admit(client, server, src, active).await
+    }
+
+    /// the same without waiting for socket readiness (blocking loopback sockets, converted
+    /// afterwards): under tokio's paused clock a task that waits for I/O while timers are
+    /// pending lets the runtime advance the clock
+    pub(crate) async fn connect_now(&self, src: IpAddr, active: bool) -> Result<(Option<SessionView>, Conn), String> {
+        let e = |e: std::io::Error| e.to_string();
+        let l = std::net::TcpListener::bind("127.0.0.1:0").map_err(e)?;
+        let dst = l.local_addr().map_err(e)?;
+        let s = socket2::Socket::new(socket2::Domain::IPV4, socket2::Type::STREAM, None).map_err(e)?;
+        s.bind(&SocketAddr::new(src, 0).into()).map_err(|x| format!("bind {src}: {x}"))?;
+        s.connect(&dst.into()).map_err(e)?;
+        let (server, _) = l.accept().map_err(e)?;
+        let client: std::net::TcpStream = s.into();
+        client.set_nonblocking(true).map_err(e)?;
+        server.set_nonblocking(true).map_err(e)?;
+        let client = TcpStream::from_std(client).map_err(e)?;
+        let server = TcpStream::from_std(server).map_err(e)?;
+        self.admit(client, server, src, active).await
+    }
+
+    async fn admit(&self, client: TcpStream, server: TcpStream, src: IpAddr, active: bool) -> Result<(Option<SessionView>, Conn), String> {
         let role = if active { crate::fsm::Role::Active } else { crate::fsm::Role::Passive };
         let session = accept_connection(&self.global, &self.tables, server, role).await;
         match session {
@@ -515,5 +568,90 @@ impl ApiRig {
             }
         }
         Ok(out)
+    }
+}
+
+// ---------------------------------------------------------------------------
+// Restarting-speaker rig (C11): the daemon's Global.selection_deferral driven through
+// PeerSession::process_effects (GrSessionEstablished / GrEorReceived arms, which spawn the
+// real selection-deferral timer task), gr_selection_deferral_timer_expired and
+// process_restarting_outputs, on a real TableManager. The start-up lines of the
+// configuration loader and the PeerWithdrawn lines of PeerSession::run are repeated here.
+// ---------------------------------------------------------------------------
+
+pub(crate) struct DeferralRig {
+    pub(crate) global: GlobalHandle,
+    pub(crate) tables: TableHandle,
+    sessions: Vec<PeerSession>,
+}
+
+impl DeferralRig {
+    /// needs a tokio runtime context with a paused clock
+    pub(crate) async fn new(peers: &[IpAddr], gr_peers: FnvHashMap<IpAddr, Vec<Family>>, timer: Option<Duration>) -> Self {
+        let (tx, _rx) = mpsc::unbounded_channel();
+        let (bfd_tx, _bfd_rx) = mpsc::unbounded_channel();
+        let g = Global::new(tx, bfd_tx);
+        let global: GlobalHandle = Arc::new(tokio::sync::RwLock::new(g));
+        let tables: TableHandle = Arc::new(TableManager::new(2));
+        // (start-up, as in the configuration loader)
+        let (deferral, init_outputs) = crate::gr::RestartingDeferral::new(gr_peers, timer);
+        if !deferral.is_completed() {
+            for output in &init_outputs {
+                if let crate::gr::RestartingOutput::DeferFamilies(families) = output {
+                    tables.start_deferral_families(families);
+                }
+            }
+            global.write().await.selection_deferral = Some(deferral);
+        }
+        let sessions = peers
+            .iter()
+            .map(|a| {
+                let fsm = crate::fsm::PeerFsm::new(1, 65000, Vec::new(), 90, 0, FnvHashMap::default());
+                let context = Arc::new(std::sync::Mutex::new(PeerContext {
+                    conn_arbiter: Arc::new(std::sync::Mutex::new(ConnArbiter::new(fsm))),
+                    active_connect_cancel_tx: None,
+                    active_connect_join_handle: None,
+                    gr_state: crate::gr::GrState::new(),
+                    gr_restart_timer: None,
+                    llgr_family_timers: FnvHashMap::default(),
+                    rtc_state: crate::rtc::RtcState::new(),
+                    rtc_eor_timer: None,
+                }));
+                PeerSession::new_for_test(*a, context, tables.clone())
+            })
+            .collect();
+        DeferralRig { global, tables, sessions }
+    }
+
+    /// the session with peer `p` reached Established having negotiated graceful restart for `gr_families`
+    pub(crate) async fn established(&mut self, p: usize, gr_families: Vec<Family>) {
+        let negotiated_gr = if gr_families.is_empty() { None } else { Some(NegotiatedGr { families: gr_families, restart_time: Duration::from_secs(120), notification_enabled: false }) };
+        let global = self.global.clone();
+        self.sessions[p].process_effects(vec![GlobalEffect::GrSessionEstablished { negotiated_gr }], &global).await;
+        // a timer task spawned by the effect starts its sleep now, not at the harness's next await
+        for _ in 0..4 {
+            tokio::task::yield_now().await;
+        }
+    }
+
+    pub(crate) async fn eor(&mut self, p: usize, family: Family) {
+        let global = self.global.clone();
+        self.sessions[p].process_effects(vec![GlobalEffect::GrEorReceived { family }], &global).await;
+    }
+
+    /// the session with peer `p` ended (the lines of PeerSession::run that tell the deferral machine)
+    pub(crate) async fn withdrawn(&mut self, p: usize) {
+        let addr = self.sessions[p].remote_addr;
+        let rd_outputs = {
+            let mut server = self.global.write().await;
+            if let Some(rd) = &mut server.selection_deferral { rd.process(crate::gr::RestartingInput::PeerWithdrawn(addr)) } else { vec![] }
+        };
+        let _ = process_restarting_outputs(rd_outputs, &self.global, &self.tables).await;
+    }
+
+    /// (still restarting, the selection-deferral timer task exists)
+    pub(crate) async fn state(&self) -> (bool, bool) {
+        let g = self.global.read().await;
+        (g.selection_deferral.is_some(), g.selection_deferral_timer.as_ref().is_some_and(|h| !h.is_finished()))
     }
 }
